@@ -342,6 +342,20 @@ async fn run_spec(spec: &Spec) -> Out {
 						out.history.push(format!("server floods slot {slot} with {} notifications (buffer {BUFFER})", BUFFER + 1));
 						w.live[*slot] = false;
 						out.subs_ended += 1;
+						// the subscription has ended for its consumer; the client's own clean-up starts with an unsubscribe call naming
+						// it (the request queue has room in these histories) - without it the entries could only go with the connection
+						let before = w.unsub_for.iter().filter(|(_, sid)| *sid == id).count();
+						settle().await;
+						w.drain(&mut out);
+						settle().await;
+						w.drain(&mut out);
+						if w.unsub_for.iter().filter(|(_, sid)| *sid == id).count() == before && w.client.is_connected() {
+							bad!(
+								format!("lagging-subscription-never-unsubscribed/{}", leak_feature(&spec.steps[..=si])),
+								"slot {slot} (subscription {id}) fell more than {BUFFER} notifications behind and was ended; no unsubscribe call naming it followed, the tables hold {:?}",
+								w.client.verif_table_sizes()
+							);
+						}
 					}
 				}
 			}
